@@ -26,7 +26,7 @@ Inductive action :=
 | DKill (slot : nat)
 | DClone (src dst : nat) | DDrop (slot : nat)
 | DDowngrade (src dst : nat) | DUpgrade (src dst : nat)
-| DHook (a : aid) (it : hitem)
+| DHook (a : aid) (its : list hitem)
 | DRun (a : aid) (r : rout)
 | DAuto (a : aid) (b : bool)
 | DAdvance (k : nat)
@@ -95,7 +95,7 @@ Definition apply_action (act : action) (x : xstate) : xstate :=
           then set_x_slots (x_slots x ++ [(dst, RStrong a)]) (xstep (LUpgrade a) x)
           else x
       | _, _ => x end
-  | DHook a it => upd_env a (fun e => mkEnv (e_hookq e ++ [it]) (e_runq e) (e_auto e)) x
+  | DHook a its => upd_env a (fun e => mkEnv (e_hookq e ++ its) (e_runq e) (e_auto e)) x
   | DRun a r =>
       match r with
       | RPending => x
